@@ -183,6 +183,58 @@ CHECKS["C17"] = {
     "level_text": "every floating-point number in the stated neighbourhoods of the switch points and a 4-bit-mantissa lattice over |tau| <= 1e6, T in [1e-6,1e6] is evaluated",
 }
 
+def opt_jobs(prop, tier, dimsq=(1, 2, 3, 4), dimst=(1, 2, 3, 4)):
+    js = []
+    for d in dims(tier, dimsq, dimst):
+        for o in (2, 3, 4):
+            js.append(job("opt_checks.cpp", "%s_d%d_s%d" % (prop, d, o), ["-DVDIM=%d" % d, "-DVORDER=%d" % o, "-DVPROP=%d" % int(prop[1:])], weight=d * o))
+    return js
+
+ASSUME_OPT = ASSUME_COMMON + ["user functors follow the documented protocol (explicit time dependence only through t_global; no dependence on local time)",
+                              "harness maps: AffSq time map (T = a + tau^2), Scale / Proj (dof = DIM-1 at odd points) / Tanh spatial maps; bundled QuadInv / Identity maps"]
+
+CHECKS["C07"] = {
+    "engine": "E1 lattice explorer",
+    "jobs": lambda tier: opt_jobs("C07", tier),
+    "rule": "unit = optimizer configuration (order, DIM, N, 8 flag bits, time map, spatial map, energy weight, integration steps K, running-cost functor from the generating set {p^2,v^2,a^2,j^2,s^2,p.v,g(t_global),segment weight,ALL x t_g^2,ALL x (1+sin t_g/4),zero}, start time, time/waypoint cost form); every unit evaluates at the initial guess and at a perturbed decision vector and compares EVERY gradient component with 4th-order Richardson central differences of the value returned by evaluate itself (two step sizes; their difference is the error bar), and the built-in workspace with an explicit one (bitwise); non-trivial = at least one flag set or N >= 2",
+    "bounds": {"quick": "DIM 1..4 x 3 orders: all 256 flag masks x N 1..3 (DIM<=2) + per-axis sweeps (12 map pairs; 11 functors x 2 rho x 4 K; start times x cost forms) for 4 masks x N 1..5",
+               "thorough": "as quick with N up to 6, K up to 64, all 256 masks for every DIM, plus the full product 256 masks x 12 map pairs x 3 functors x 2 rho x 2 K for N 1..3, DIM <= 2"},
+    "thresholds": {"|analytic - FD| <= max(10 x Richardson error bar, 1e-6 x largest gradient entry)": "observed 1e-9 of the largest entry"},
+    "assumptions": ASSUME_OPT,
+    "technique": TECH_E1 + "; oracle = Richardson-extrapolated differences of the optimizer's own cost, per decision variable",
+    "level_text": "all 256 flag combinations x 3 orders and every other configuration axis swept exhaustively; each gradient component is checked against the cost the same call returns; the functor generating set has one member per channel the optimizer treats linearly",
+}
+CHECKS["C08"] = {
+    "engine": "E1 lattice explorer",
+    "jobs": lambda tier: opt_jobs("C08", tier),
+    "rule": "unit = optimizer configuration as in C07; a recording running-cost functor stores every sample: exactly (K+1)N samples, segment index, local time k T_i/K, global time = start + elapsed + t, p/v/a/j/s = derivatives 0..4 of the workspace spline's published piece (exact polynomial calculus); returned cost = time + waypoint + trapezoid(recorded samples) + rho x getEnergy (1e-12) and = the reference model's cost from the decoded inputs through the dense long-double spline solve; decode of x checked against the layout model; two-cost overload = three-cost overload with a zero waypoint cost; getOptimalSpline after a built-in-workspace evaluation; basis rows of computeBasisFunctions vs falling factorials at 9 t values",
+    "bounds": {"quick": "same configuration set as C07 quick", "thorough": "same configuration set as C07 thorough"},
+    "thresholds": {"sample state": 1e-11, "cost decomposition": 1e-12, "cost vs reference model (cubic/quintic/septic)": [1e-8, 1e-7, 1e-6]},
+    "assumptions": ASSUME_OPT,
+    "technique": TECH_E1 + "; oracle = reference optimizer model R4 (layout, decode, trapezoid quadrature, energy) over the dense reference spline + exact calculus on published coefficients",
+    "level_text": "every configuration is evaluated with a recording functor and the cost is re-assembled independently, so an error that changes cost and gradient together (invisible to C07) is visible",
+}
+CHECKS["C09"] = {
+    "engine": "E1 lattice explorer (static part) + E2 history explorer (reconfiguration histories)",
+    "jobs": lambda tier: opt_jobs("C09", tier, (1, 2, 3), (1, 2, 3)),
+    "rule": "static: unit = (order, DIM in 1..3, N in 1..6, ALL 256 flag masks, spatial map in {Identity, Proj with dof = DIM-1 at odd points, Tanh}, time map): getDimension = N + sum dof(optimised points) + DIM x #(flagged derivative blocks the order has); generateInitialGuess decodes back to the reference (model decode and through evaluate + getOptimalSpline); a decision vector with pairwise distinct entries 1 + i/64 decodes to exactly the model's slices (unflagged quantities pinned exactly); the exposed spline equals a fresh spline of the decoded inputs (bitwise)",
+    "bounds": {"quick": "3 orders x DIM 1..3 x N 1..6 x 256 masks x {Identity, Proj} (+ Tanh and the other time maps on a sub-lattice of masks)", "thorough": "3 orders x DIM 1..3 x N 1..6 x 256 masks x 3 spatial maps x 3 time maps"},
+    "thresholds": {"layout / pinning": "exact", "initial-guess round trip": 1e-12},
+    "assumptions": ASSUME_OPT,
+    "technique": TECH_E1 + " + " + TECH_E2 + "; oracle = layout/decode model R4",
+    "level_text": "the complete flag x order x N x DIM lattice named by the property is enumerated; reconfiguration histories are explored by BFS over setter/query sequences",
+}
+CHECKS["C19"] = {
+    "engine": "E1 lattice explorer",
+    "jobs": lambda tier: opt_jobs("C19", tier, (1, 2), (1, 2, 3)),
+    "rule": "unit = (order, DIM, N in 1..3, flag mask, spatial map, both overloads inside); on problems whose finite-difference noise floor is < tol/100: correct functors -> valid, analytical = evaluate's gradient (bitwise), numerical = harness-recomputed central difference on fresh workspaces (bitwise), error_norm / rel_error per definition, workspace spline afterwards = spline of x (bitwise), explicit and built-in workspace, non-default eps/tol; then for EVERY single output component of the time-cost gradient (N), waypoint-cost gradient ((N+1) DIM) and running-cost gradients (gp,gv,ga,gj,gs per component, gt) a functor with that component off by 4: if the induced analytic-gradient error is >= 10 tol the verdict must be false, if it is exactly 0 the verdict must stay true",
+    "bounds": {"quick": "3 orders x DIM 1..2 x N 1..3 x 16 flag masks x {Identity, Proj}", "thorough": "3 orders x DIM 1..3 x N 1..3 x 256 flag masks x {Identity, Proj}"},
+    "thresholds": {"tol": 1e-4, "eps": 1e-6},
+    "assumptions": ASSUME_OPT + ["verdicts are only asserted where the finite-difference noise floor is far below tol"],
+    "technique": TECH_E1 + " over configurations x the complete set of single-component functor faults; expected verdict computed independently from two plain evaluations",
+    "level_text": "every single gradient component a user functor can get wrong is perturbed in turn, for every enumerated configuration and both overloads",
+}
+
 NOT_APPLICABLE = {}
 
 ENGINES = [
